@@ -33,7 +33,17 @@ def _(v):
     conc = {n: v.real("c_" + n, lo=0, hi=10) for n in NAMES}
     rsys = ReactionSystem([], subst, checks=())
     if v.symbolic:
-        v.contract(ReactionSystem.as_per_substance_array, "as_per_substance_array", None, lambda v_, self, cont, **kw: [cont[k] for k in self.substances])
+        def per_substance_array(v_, self, cont, dtype="float64", unit=None, raise_on_unk=False):
+            """stand-in for as_per_substance_array with its documented interface: the same parameters and defaults, and what it returns for a
+            dictionary / sequence of per-substance values without a unit: a 1-d ndarray of length ns in substance order (an object array, so that
+            it can hold the symbolic concentrations; .tolist(), .shape, iteration and indexing work as on the real result)"""
+            import numpy as np
+            vals = [cont[k] for k in self.substances] if isinstance(cont, dict) else list(cont)
+            arr = np.empty(len(vals), dtype=object)
+            for i, x in enumerate(vals):
+                arr[i] = x
+            return arr
+        v.contract(ReactionSystem.as_per_substance_array, "as_per_substance_array", None, per_substance_array)
     b = v.call(rsys.upper_conc_bounds, conc)
     total = {k: sum(comp[n].get(k, 0) * conc[n] for n in NAMES) for k in (1, 8)}
     v.prove("length_and_order", len(b) == 4)
@@ -52,6 +62,36 @@ def _(v):
         for i, n in enumerate(NAMES):
             if [k for k in comp[n] if k != 0]:
                 v.prove_nl("bound_%s.dominates_every_state_with_same_totals" % n, alt[n] <= b[i])
+
+
+@harness("C15", "upper_conc_bounds_of_a_system_without_any_element", functions=[RS + ":ReactionSystem.upper_conc_bounds"], kind="data")
+def _(v):
+    """'the elemental upper bound of each species is the least of (element total)/(atoms per molecule)': a species that holds no element has no
+    ratio to take the least of, nothing elemental limits it, its bound is inf (obligation no_elements_is_inf above, there for ONE such species
+    next to three with elements).  Here for systems in which NO substance has an element at all -- empty compositions, charge only (charge is
+    no element), both mixed -- so that there is not a single element total to form: one inf per substance, in whatever container, and no
+    exception; state given as dictionary, list, tuple and array."""
+    import numpy as np
+    from chempy.chemistry import Reaction, Substance
+    from chempy.reactionsystem import ReactionSystem
+    inf = float("inf")
+    systems = [("empty_compositions", [{}, {}, {}]), ("charge_only", [{0: 1}, {0: -1}, {0: 2}]), ("empty_and_charge_only", [{}, {0: -1}, {0: 1}]), ("a_single_species", [{}])]
+    for name, comps in systems:
+        keys = ["X", "Y", "Z"][:len(comps)]
+        c0 = [1.5, 0.0, 4.0][:len(comps)]
+        bad = []
+        try:
+            rsys = ReactionSystem([Reaction({"X": 1}, {"Y": 1}, 1.0, checks=())] if len(keys) > 1 else [], [Substance(k, composition=dict(c)) for k, c in zip(keys, comps)], checks=())
+            for state in (dict(zip(keys, c0)), list(c0), tuple(c0), np.array(c0)):
+                try:
+                    got = [float(x) for x in rsys.upper_conc_bounds(state)]
+                except Exception as ex:
+                    got = repr(ex)
+                if got != [inf] * len(keys):
+                    bad.append((type(state).__name__, got))
+        except Exception as ex:      # building the system itself
+            bad.append(("constructor", repr(ex)))
+        v.prove("every_bound_is_inf." + name, not bad, detail="state given as, bounds: %r" % bad[:2])
 
 
 LAYOUTS = [(["A", "B"], ["C"], [], []), (["C"], ["A", "B"], [], []), (["A"], ["D"], ["B"], ["B"]), (["C"], ["A", "B"], [], [])]
